@@ -289,6 +289,25 @@ def run(ctx):
                  "TextWrapper, say) is never configured per call (same rule as C17-R13)", reference=0)
     module_objects_rule(ctx, r, mod_pred=lambda mn: mn.startswith(("clikit.ui", "clikit.utils")))
 
+    # ---------------------------------------------------------------- R14
+    r = ctx.rule("C14-R14", "TABLE", "'every cell's text is kept': a cell is cut into lines at '\\n' only - `split('\\n')` gives one (empty) line for an empty cell, `splitlines()` "
+                 "gives none, and a row whose cells are all empty would not be drawn at all (every later row is then read back from the wrong row)", reference=1)
+    n14 = 0
+    for mn_ in ("clikit.ui.components.border_util", "clikit.ui.components.table", "clikit.ui.components.cell_wrapper"):
+        mod_ = p.modules.get(mn_)
+        if mod_ is None:
+            continue
+        for f_ in [x for x in p.all_functions() if x.module is mod_]:
+            for c in q.calls(f_):
+                if isinstance(c.func, ast.Attribute) and c.func.attr == "splitlines":
+                    n14 += 1
+                    r.fail(f_, c, norm(c)[:50], "%s cuts a cell with splitlines(): an empty cell has no line at all, so a row of empty cells (or an empty cell in a one-column table) is not drawn" % f_.short)
+                elif isinstance(c.func, ast.Attribute) and c.func.attr == "split" and c.args and isinstance(c.args[0], ast.Constant) and c.args[0].value == "\n":
+                    n14 += 1
+                    r.ok("%s: %s" % (f_.short, norm(c)[:50]))
+    if n14 == 0:
+        r.vacuous_ok = True
+
     return ctx.results
 
 
